@@ -38,6 +38,7 @@ type loopInfo struct {
 	cells    map[ssa.Value]bool
 	prefixes map[string]bool
 	havocAll bool
+	havocKeep bool // arbitrary heap changes except this goroutine's lock set
 	allocs   bool
 }
 
@@ -66,6 +67,7 @@ type FuncVerifier struct {
 	mergeMode bool
 	fork     *forkOut
 	ccMode   int
+	sumKeep  bool
 }
 
 func (fv *FuncVerifier) addOb(st *State, kind, name string, goal Term, src string, pos token.Pos) *Obligation {
@@ -157,11 +159,14 @@ func rootOfAddr(v ssa.Value) (root ssa.Value, viaIndex bool) {
 }
 
 func (fv *FuncVerifier) summarizeLoop(li *loopInfo) {
+	fv.sumKeep = false
 	for b := range li.body {
 		for _, ins := range b.Instrs {
 			fv.summarizeInstr(ins, li.cells, li.prefixes, &li.havocAll, &li.allocs)
 		}
 	}
+	li.havocKeep = fv.sumKeep
+	fv.sumKeep = false
 }
 
 // heapPrefixOfAddr returns the heap array prefix a store through addr would modify ("" for local cells).
@@ -244,7 +249,7 @@ func (fv *FuncVerifier) summarizeInstr(ins ssa.Instruction, cells map[ssa.Value]
 			cells[a] = true
 		}
 	case *ssa.Send, *ssa.Select, *ssa.Go:
-		*havocAll = true
+		fv.sumKeep = true // arbitrary heap changes, but this goroutine's lock set is kept
 	case *ssa.Range:
 		cells[x] = true
 	case *ssa.Next:
@@ -412,6 +417,10 @@ func (fv *FuncVerifier) modPrefixes(c *FuncContract, prefixes map[string]bool, h
 	_ = callee
 	fn := findFunc(fv.enc.prog, c.Name)
 	for _, m := range c.Modifies {
+		if sc, isCall := m.E.(*SCall); isCall && sc.Fn == "anything" {
+			fv.sumKeep = true
+			continue
+		}
 		ps, ok := modClausePrefixes(fv.enc, fn, c, m.E)
 		if !ok {
 			*havocAll = true
